@@ -166,7 +166,7 @@ func cmdDebug(args []string) {
 				fmt.Println(v.SMT)
 				fmt.Println(v.Raw)
 			}
-			if (v.Status != "discharged" || v.Obl.Class == "cover") && *dumpDir != "" {
+			if (v.Status != "discharged" || v.Obl.Class == "cover" || *all) && *dumpDir != "" {
 				os.MkdirAll(*dumpDir, 0o755)
 				os.WriteFile(*dumpDir+"/"+sanitize(v.Obl.Name)+".smt2", []byte(v.SMT), 0o644)
 			}
